@@ -832,16 +832,39 @@ def run(ctx):
                 "matrix": lambda: np.matrix(V), "subclass": lambda: np.array(V).view(_Sub),
                 "float32": lambda: V.astype(np.float32), "list": lambda: V.tolist()}
 
-    def mk_ow_cmp(jit):
+    def mk_ow_cmp(jit, n_):
+        # The model's sums are left-to-right.  That is the code's order for the Numba kernel (any n) and for the
+        # NumPy twin while every pivot-row slice has < 8 elements (n <= 8: np.sum adds such a slice sequentially).
+        # For the NumPy twin with n >= 9 np.sum is pairwise (8 accumulators), so the reduced matrix may differ
+        # in the last bits: there the comparison is the zero / changed pattern exactly and the values inside the
+        # proved any-order bound, and the case is counted.
+        exact_order = jit or n_ <= 8
+
         def cmp(mo, impl):
             if impl.startswith("ERR") or mo.startswith("ERR"):
                 return None if mo == impl else "error kinds differ"
             pm = dict(p_.split("=", 1) for p_ in mo.split(" "))
             pi_ = dict(p_.split("=", 1) for p_ in impl.split(" "))
+            if exact_order:
+                ctx.count("gthow:compared-bit-for-bit")
+                if pm["A"] != pi_["A"]:
+                    return "contents of the caller's array after the call differ from the model's argAfter"
+                if jit and pm["x"] != pi_["x"]:
+                    return "result of the last call differs in bits"
+                return None
+            ctx.count("gthow:numpy-twin-n>=9:compared-within-proved-bound")
+            tolf = float(thm_tol_any(n_))
+            am = [unfx(t) for r_ in pm["A"].split(";") for t in r_.split(",")]
+            ai = [unfx(t) for r_ in pi_["A"].split(";") for t in r_.split(",")]
+            if len(am) != len(ai):
+                return "shape of the caller's array differs"
             if pm["A"] != pi_["A"]:
-                return "contents of the caller's array after the call differ from the model's argAfter"
-            if jit and pm["x"] != pi_["x"]:
-                return "result of the last call differs in bits"
+                ctx.count("gthow:numpy-twin-n>=9:bits-differ")
+            for a_, b_ in zip(am, ai):
+                if (a_ == 0) != (b_ == 0):
+                    return "zero pattern of the caller's array after the call differs from the model's argAfter"
+                if abs(a_ - b_) > tolf * max(abs(a_), abs(b_)):
+                    return "caller's array after the call differs from the model's argAfter beyond the proved any-order bound"
             return None
         return cmp
 
@@ -877,7 +900,7 @@ def run(ctx):
                                   {"A": fxm(V_used), "form": name, "use_jit": jit, "reps": reps})
                 cases.append(Case("C02 gthow n=%d ow=%d nd=%d f64=%d cc=%d reps=%d A=%s" % (
                     n, int(ow), int(isnd), int(f64), int(cc), reps, fxm(V_used)),
-                    "x=%s A=%s" % (fxs(x), fxm(after)), nontrivial=(n >= 3 and ow), cmp=mk_ow_cmp(jit),
+                    "x=%s A=%s" % (fxs(x), fxm(after)), nontrivial=(n >= 3 and ow), cmp=mk_ow_cmp(jit, n),
                     tag="gthow:" + ("inplace" if (ow and isnd and f64 and cc) else "copy")))
     for it in range(ctx.n(4, 12)):                     # malformed: non-square in the in-place mode
         n = rng.randint(2, 4)
